@@ -31,6 +31,9 @@ pub struct Script {
     /// keep going after an outcome that differs from the script's expectation
     #[serde(default)]
     pub lenient: bool,
+    /// decode the on-disk image at every quiescent point (C16 / C19)
+    #[serde(default)]
+    pub decode: bool,
 }
 
 pub struct World<T: HashAlgorithm> {
@@ -47,6 +50,7 @@ pub struct World<T: HashAlgorithm> {
     pub all_keys: Vec<(usize, Key)>,   // (model key index, concrete member key)
     pub probe_keys: Vec<Key>,
     pub root_ids: HashMap<[u8; 32], u64>,
+    pub decode: bool,
 }
 
 pub fn classify_err(e: &anyhow::Error) -> String {
@@ -101,6 +105,7 @@ impl<T: HashAlgorithm> World<T> {
             all_keys,
             probe_keys,
             root_ids: HashMap::new(),
+            decode: false,
         };
         w.open()?;
         Ok(w)
@@ -127,7 +132,7 @@ impl<T: HashAlgorithm> World<T> {
 
     /// Read every concrete key through `read`, fold to the model map, compute the reference root of
     /// exactly what was read.
-    fn observe_with(
+    pub fn observe_with(
         &self,
         read: &dyn Fn(Key) -> anyhow::Result<Option<Vec<u8>>>,
     ) -> (Map<String, J>, bool, [u8; 32], BTreeMap<Key, Vec<u8>>) {
@@ -181,8 +186,53 @@ impl<T: HashAlgorithm> World<T> {
         let poisoned = nomt.is_poisoned();
         let occupied = nomt.hash_table_utilization().occupied;
         let rid = self.root_id(root);
-        json!({"open": true, "kv": kv, "probesOk": probes_ok, "rootOk": root == ref_root,
-               "rootId": rid, "seqn": seqn, "poisoned": poisoned, "occupied": occupied})
+        let mut st = json!({"open": true, "kv": kv, "probesOk": probes_ok, "rootOk": root == ref_root,
+               "rootId": rid, "seqn": seqn, "poisoned": poisoned, "occupied": occupied});
+        if self.decode && self.sess.is_empty() && !poisoned {
+            st["dec"] = self.decode_obs(occupied as u64);
+        }
+        st
+    }
+
+    /// Decode the directory by the documented formats alone (harness/src/decode.rs) and compare with
+    /// what the public API returns: C16 (structure, decoded map, merkle pages vs reference trie) and
+    /// C19 (no leaked page, truthful occupancy).  Page lists are included for small stores so that
+    /// AllocTrace can check the copy-on-write transition relation between snapshots.
+    fn decode_obs(&self, occupied: u64) -> J {
+        let mut d = match crate::decode::decode_dir(&self.dir) {
+            Ok(d) => d,
+            Err(e) => return json!({"ok": false, "problems": [format!("decoder failed: {e:#}")]}),
+        };
+        crate::decode::check_merkle(&mut d, if self.cfg.hasher == "sha2" { "sha2" } else { "blake3" });
+        // decoded map == what the store returns for every key it holds, and nothing else
+        let nomt = self.nomt.as_ref().unwrap();
+        let mut kv_ok = true;
+        for (k, v) in &d.kv {
+            match nomt.read(*k) {
+                Ok(Some(b)) if b == v.value => {}
+                _ => kv_ok = false,
+            }
+        }
+        for (_, k) in &self.all_keys {
+            let api = nomt.read(*k).ok().flatten();
+            if api.as_ref() != d.kv.get(k).map(|v| &v.value) {
+                kv_ok = false;
+            }
+        }
+        let leak = d.problems.iter().any(|p| p.contains("leak"));
+        let other: Vec<&String> = d.problems.iter().filter(|p| !p.contains("leak")).collect();
+        let alloc = |a: &crate::decode::FileAlloc| {
+            if a.bump <= 400 {
+                json!({"bump": a.bump, "free": a.free, "fl": a.fl_pages, "live": a.live})
+            } else {
+                json!({"bump": a.bump, "nfree": a.free.len(), "nfl": a.fl_pages.len(), "nlive": a.live.len()})
+            }
+        };
+        json!({"ok": other.is_empty(), "noLeak": !leak, "kvOk": kv_ok, "occupiedOk": d.buckets.full == occupied,
+               "full": d.buckets.full, "tomb": d.buckets.tombstones, "empty": d.buckets.empty,
+               "keys": d.kv.len(), "storedPages": d.pages.len(),
+               "ln": alloc(&d.ln), "bbn": alloc(&d.bbn),
+               "problems": d.problems.iter().take(6).collect::<Vec<_>>()})
     }
 
     /// Prove one member of every group plus the probes through the session, verify against the
@@ -338,6 +388,7 @@ pub fn run_script<T: HashAlgorithm>(sc: &Script, scratch: &Path, out: &mut dyn W
     let dir = scratch.join(format!("run{}", sc.run));
     let _ = std::fs::remove_dir_all(&dir);
     let mut w: World<T> = World::new(dir.clone(), sc.cfg.clone(), sc.conc.clone())?;
+    w.decode = sc.decode;
     let st0 = w.observe();
     writeln!(
         out,
